@@ -245,12 +245,15 @@ where
     let mut accum = Probability::zero();
 
     for probability in probabilities {
+        // Read the value only once so that we validate exactly what we hand on (`borrow` is
+        // user code and may not return the same value every time it gets called).
+        let probability: Probability = *probability.borrow();
         let old_accum = accum;
-        accum = accum.wrapping_add(probability.borrow());
+        accum = accum.wrapping_add(&probability);
         laps_or_zeros += (accum <= old_accum) as usize;
         num_explicit_probabilities = num_explicit_probabilities.wrapping_add(1);
         let symbol = symbols.next().ok_or(())?;
-        operation(symbol, old_accum, *probability.borrow())?;
+        operation(symbol, old_accum, probability)?;
     }
 
     let total = wrapping_pow2::<Probability>(PRECISION);
